@@ -1,4 +1,5 @@
 import TakVerif.Proofs.ThreatMain
+import TakVerif.Proofs.ThreatLegal
 import TakVerif.Impl.ThreatHyp
 
 /-! # C19 — a reported immediate road threat for the side to move is a real winning move
@@ -29,7 +30,7 @@ theorem threat_real (basis : Array W) (p : Pos) (wf : WFBoard p) (hh : HeightsOK
     ∃ m q, p.apply basis m = .ok q ∧
       q.winDetails.over = true ∧ q.winDetails.winner = p.toMove ∧ q.winDetails.reason = .road ∧
       (groupsOf q p.toMove).any (isRoadGroup q.c) = true := by
-  obtain ⟨m, q, h1, ⟨a, b, c⟩, h3⟩ := threat_real_impl basis p wf hh hply hno hcount
+  obtain ⟨m, q, _, h1, ⟨a, b, c⟩, h3, _⟩ := threat_real_impl basis p wf hh hply hno hcount
   exact ⟨m, q, h1, a, b, c, h3⟩
 
 /-- the same in the vocabulary of the one-ply search of the tie (`winsByRoad` = `Move` succeeds and
@@ -43,22 +44,42 @@ theorem threat_real_search (basis : Array W) (p : Pos) (wf : WFBoard p) (hh : He
   rw [h1]
   simp [a, b, c]
 
-/-- … and in the rule book's terms: whenever the successor is again a well-formed board (C01: `Move`
-preserves the invariant), it has a `RoadPath` of the mover's colour. -/
+/-- **C19 in the rule book's terms.**  The successor again satisfies C02's road invariant, so what `At`
+shows of it (`Spec.abs q`) has a `RoadPath` of the mover's colour — an actual chain of adjacent squares
+topped by the mover's flats/capstones joining two opposite edges — and the rule book's verdict
+(`Spec.outcome`) is: over, by a road, won by the player who moved. -/
 theorem threat_real_rulebook (basis : Array W) (p : Pos) (wf : WFBoard p) (hh : HeightsOK p) (hply : 2 ≤ p.move)
     (hno : p.gameOver.1 = false) (hcount : 0 < (countThreats p.c p).forMover p) :
-    ∃ m q, p.apply basis m = .ok q ∧ (WFBoard q → Spec.RoadPath (Spec.abs q) p.toMove) := by
-  obtain ⟨m, q, h1, _, _, _, h3⟩ := threat_real basis p wf hh hply hno hcount
-  refine ⟨m, q, h1, fun wfq => ?_⟩
+    ∃ m q, p.apply basis m = .ok q ∧ Spec.RoadPath (Spec.abs q) p.toMove ∧
+      (Spec.outcome (Spec.abs q)).over = true ∧ (Spec.outcome (Spec.abs q)).road = true ∧
+      (Spec.outcome (Spec.abs q)).winner = p.toMove := by
+  obtain ⟨m, q, _, h1, ⟨a, b, c⟩, h3, wfq⟩ := threat_real_impl basis p wf hh hply hno hcount
   have hc : p.toMove ≠ .none := by rcases toMove_cases p with h | h <;> rw [h] <;> decide
-  exact (groups_any_iff_roadPath q wfq p.toMove hc).mp h3
+  have hr := winDetails_refines q wfq
+  refine ⟨m, q, h1, (groups_any_iff_roadPath q wfq p.toMove hc).mp h3, ?_, ?_, ?_⟩
+  · rw [← hr]; exact a
+  · rw [← hr]; simp [toOutcome, c]
+  · rw [← hr]; exact b
+
+/-- **C19 with the rule book on both sides** (uses C01's `move_refines`).  `p` well-formed in C01's sense
+(`Tak.WF`: every square consistent incl. heights and stack words, hash field, frame) with its analysis up to
+date, from ply 2 on, not over, positive count for the mover; `hlim`: the documented 64-piece stack limit is
+respected by the moves of this position (automatic when the game has at most 64 pieces,
+`C01.stack_limit_of_budget`).  Then some raw move is **legal by the rule book** and its rule-book successor
+has a `RoadPath` of the mover; the rule book's verdict on it: over, by a road, won by the mover. -/
+theorem threat_real_rules (basis : Array W) (p : Pos) (hwf : Tak.WF basis p) (han : p.analyze = some p)
+    (hlim : ∀ m, StackLimit p m) (hply : 2 ≤ p.move) (hno : p.gameOver.1 = false)
+    (hcount : 0 < (countThreats p.c p).forMover p) :
+    ∃ m s', Spec.step (Spec.abs p) (Spec.decode m) = some s' ∧ Spec.RoadPath s' p.toMove ∧
+      (Spec.outcome s').over = true ∧ (Spec.outcome s').road = true ∧ (Spec.outcome s').winner = p.toMove :=
+  threat_real_legal basis p hwf han hlim hply hno hcount
 
 /-- the executable form of the hypotheses (evaluated on every sampled position by the `c19hyp` op) -/
 theorem threatHypB_sound (p : Pos) (h : p.threatHypB = true) : WFBoard p ∧ HeightsOK p := by
   unfold Pos.threatHypB at h
   simp only [Bool.and_eq_true, decide_eq_true_eq, beq_iff_eq] at h
   obtain ⟨⟨⟨⟨⟨⟨⟨⟨h1, h2⟩, h3⟩, h4⟩, h5⟩, h6⟩, h7⟩, h8⟩, h9⟩ := h
-  refine ⟨⟨h1, h2, (subB_iff _ _).mp h3, (subB_iff _ _).mp h4, h5, (subB_iff _ _).mp h6, h7, h8⟩, ?_⟩
+  refine ⟨⟨⟨h1, h2, (subB_iff _ _).mp h3, (subB_iff _ _).mp h4, h5, h8⟩, (subB_iff _ _).mp h6, h7⟩, ?_⟩
   intro i hi
   have hi64 : i < 64 := by
     apply Classical.byContradiction; intro hge
